@@ -146,6 +146,15 @@ Theorem C05_face_local : forall (T : Type) (O : c05_ops T) pos t npf dim3 rule o
 Proof. exact @c05_face_local. Qed.
 Print Assumptions C05_face_local.
 
+(* padding: the width of the connectivity table (how many fill entries follow the corners) does not
+   enter any face area *)
+Theorem C05_padding_width : forall (T : Type) (O : c05_ops T) pos t npf w dim3 rule order conv,
+  Forall2 (fun r k => (Z.to_nat k <= length r)%nat) t npf ->
+  c05_all_areas O pos (map (fun r => r ++ repeat FILL w) t) npf dim3 rule order conv =
+  c05_all_areas O pos t npf dim3 rule order conv.
+Proof. exact @c05_all_areas_padding. Qed.
+Print Assumptions C05_padding_width.
+
 (* ---- cache: after ANY history of compute_face_areas / calculate_total_face_area / face_areas /
    face_jacobian calls, face_areas returns the default-rule computation ---- *)
 Theorem C05_cache : forall (T : Type) (O : c05_ops T) fixdim conv g ops,
